@@ -52,9 +52,9 @@ theorem predictCons_headers (r : Rec) (cons : List String) :
 
 /-- Entries read in full (by `read_data` with any buffer sizes or by
 `read_data_block`) are predicted to be exactly the reference entries. -/
-theorem predictEnt_full (e : Ent) (c : String) (h : c = "A" ∨ c = "a" ∨ c = "B") :
+theorem predictEnt_full (e : Ent) (c : String) (h : c = "A" ∨ c = "a" ∨ c = "B" ∨ c.startsWith "R" = true) :
     predictEnt e c = e := by
   unfold predictEnt
-  rcases h with rfl | rfl | rfl <;> simp
+  rcases h with rfl | rfl | rfl | h <;> simp [*]
 
 end LA.C06
